@@ -320,7 +320,12 @@ def _reaction_from_dict(reaction: Dict, model: Model) -> Reaction:
         elif k == "metabolites":
             new_reaction.add_metabolites(
                 OrderedDict(
-                    (model.metabolites.get_by_id(str(met)), coeff)
+                    # plain floats: YAML's round-trip floats remember their text
+                    # layout and lose digits when they are written again
+                    (
+                        model.metabolites.get_by_id(str(met)),
+                        coeff if isinstance(coeff, int) else float(coeff),
+                    )
                     for met, coeff in v.items()
                 )
             )
